@@ -266,6 +266,19 @@ def frontManyLine (srcs : List (Option IDL × String)) : Sx :=
 def modelLine (c : Sx) : Option Sx :=
   match c with
   | .list [.atom "helper-batch"] => some (tagged "helper-batch" [.atom "ok"])
+  | .list [.atom "frontpath", .atom which, _, src] =>
+    -- the path of the input only decides WHERE the output goes (checked by the harness against the documented place)
+    (parseSrc src).map fun p => match frontLine (if which == "tosource" then "tosource" else "build") p with
+      | .list (.atom _ :: rest) => tagged "frontpath" rest
+      | x => x
+  | .list [.atom "options", src, _, _] =>
+    -- a preamble of fresh items and the tosource header change nothing about the verdict
+    (parseSrc src).map fun p => match p with
+      | (none, k) => tagged "options" [tagged "rej" [.atom k]]
+      | (some i, _) => match verdict i with
+        | .panic => tagged "options" [.atom "panic"]
+        | .rustcFail c => tagged "options" [.atom "ok", tagged "rustc" [tagged "fail" [.atom c]]]
+        | .ok => tagged "options" [.atom "ok", tagged "rustc" [.atom "ok"]]
   | .list (.atom "frontmany" :: srcs) => (srcs.mapM parseSrc).map frontManyLine
   | .list [.atom "compile", src] => (parseSrc src).map compileLine
   | .list [.atom "front", .atom which, src] => (parseSrc src).map (frontLine which)
@@ -371,15 +384,20 @@ def predC08 (c o : Sx) : String :=
   | .list (.atom "front" :: _) => "ok"
   | .list (.atom "frontmany" :: _) => "ok"
   | .list [.atom "helper-batch"] => "ok"
+  | .list (.atom "frontpath" :: _) => "ok"
+  | .list (.atom "options" :: _) => "ok"
   | _ => "fail unparsable-case"
 
 def predC09 (c o : Sx) : String :=
   match c with
   | .list [.atom "compile", src] =>
     match parseSrc src with
-    | some (none, _) =>
-      (match o with
+    | some (none, k) =>
+      -- the generator is total: a text the parser does not accept yields a diagnostic, never a panic
+      if k == "panic" then "fail generator-panicked-on-rejected-input"
+      else (match o with
        | .list [.atom "compile", .list [.atom "rej", _]] => "ok"
+       | .list [.atom "compile", .atom "panic"] => "fail generator-panicked-on-rejected-input"
        | _ => "fail rejected-text-but-generator-did-not-fail")
     | some (some i, _) =>
       (match o with
@@ -406,6 +424,38 @@ def predC09 (c o : Sx) : String :=
            | .list [.atom e, .atom s] => (e == "t", if s == "-" then none else some (s == "t"))
            | _ => (false, none)))
      | _, _ => "fail unexpected-frontmany-observation")
+  | .list [.atom "frontpath", .atom which, rel, src] =>
+    (match parseSrc src, o with
+     | some (i?, _), .list [.atom "frontpath", _, .atom status, .atom emitted, .atom same] =>
+       (match P_C09_front i? status (emitted == "t") (if same == "-" then none else some (same == "t")) with
+        | none => "ok"
+        | some r => if r.endsWith "class=none" || !((r.splitOn " class=").length == 2)
+                    then "fail " ++ r ++ " entry=" ++ which ++ " path=" ++ ((Sx.asStr rel).getD "?")
+                    else "fail " ++ r)
+     | _, _ => "fail unexpected-frontpath-observation")
+  | .list [.atom "options", src, .atom ts, .atom pre] =>
+    (match parseSrc src with
+     | some (none, k) =>
+       if k == "panic" then "fail generator-panicked-on-rejected-input"
+       else (match o with
+         | .list [.atom "options", .list [.atom "rej", _]] => "ok"
+         | .list [.atom "options", .atom "panic"] => "fail generator-panicked-on-rejected-input"
+         | _ => "fail rejected-text-but-generator-did-not-fail")
+     | some (some i, _) =>
+       let r := match o with
+         | .list [.atom "options", .atom "panic"] => P_C09_compile i false true none
+         | .list [.atom "options", .list [.atom "rej", _]] => P_C09_compile i false false none
+         | .list [.atom "options", .atom "ok", .list [.atom "rustc", .atom "ok"]] => P_C09_compile i true false none
+         | .list [.atom "options", .atom "ok", .list [.atom "rustc", .list [.atom "fail", .atom cat]]] => P_C09_compile i true false (some cat)
+         | .list [.atom "options", .atom "ok", .list [.atom "rustc", .atom other]] => some other
+         | _ => some "unexpected-options-observation"
+       (match r with
+        | none => "ok"
+        -- a failure of a recorded class keeps the recorded reason; anything else names the cell of the matrix
+        | some r => if r.endsWith "class=none" || !((r.splitOn " class=").length == 2)
+                    then "fail options-" ++ r ++ " tosource=" ++ ts ++ " preamble=" ++ pre
+                    else "fail " ++ r)
+     | none => "fail unparsable-case")
   | .list [.atom "helper-batch"] =>
     -- the batch is not a replayable input: a failure here shows as a disagreement with the model; the
     -- `frontmany` cases carry the concrete file lists
